@@ -194,6 +194,37 @@ func (env *Env) isInternal(name string) bool {
 	return isInternalName(name)
 }
 
+// isInternalID is isInternal made precise: the cardinality gauges carry the
+// built-in tags (plus the configured cardinality tags), mapped through the
+// model sanitiser; a user metric whose sanitised name happens to coincide with
+// a cardinality gauge's name is told apart by its tags.
+func (env *Env) isInternalID(name string, tags map[string]string) bool {
+	if isInternalName(name) && env.Prog.Cfg.Sanitize == nil {
+		return true
+	}
+	if !env.isInternal(name) {
+		return false
+	}
+	want := map[string]string{
+		env.Model.sanKey("version"):  "",
+		env.Model.sanKey("host"):     env.Model.sanValue("global"),
+		env.Model.sanKey("instance"): env.Model.sanValue("global"),
+	}
+	for k, v := range env.Prog.Cfg.CardTags {
+		want[env.Model.sanKey(k)] = env.Model.sanValue(v)
+	}
+	if len(tags) != len(want) {
+		return isInternalName(name) && env.Prog.Cfg.Stack != "plain" && env.Prog.Cfg.Stack != "cached"
+	}
+	for k, v := range want {
+		got, ok := tags[k]
+		if !ok || (v != "" && got != v && k != env.Model.sanKey("version")) {
+			return false
+		}
+	}
+	return true
+}
+
 func isInternalName(name string) bool {
 	// tally's own cardinality metrics and the M3 reporter's self metrics, by
 	// their documented names; a sanitiser may have replaced '.', '-' or '_'.
